@@ -136,6 +136,10 @@ class C17(Check):
             out.append({'kind': 'plain', 'tree': P7.plain_tree(rng), 'cut': rng.randrange(100)})
         for i, d in enumerate(RAW_DOCS):
             out.append({'kind': 'raw', 'i': i})
+        # the SAME text parsed more than once, the earlier result changed in place in between (renamed, a child moved out, an attribute set):
+        # every parse yields the tree of the text
+        for i in range(20 if tier == 'quick' else 400):
+            out.append({'kind': 'twice', 'tree': X.gen_tree(rng, comments=True), 'huge': i % 2 == 0, 'how': ['replace_ns', 'move_child', 'set_attr', 'clear'][i % 4]})
         out.append({'kind': 'ctor', 'steps': [['new_ele+nsmap-default', 'hello', 'urn:a'], ['sub_ele', 0, 'capabilities', 'urn:a', None, None],
                                               ['sub_ele', 1, 'capability', 'urn:a', 'urn:x', None]]})
         return out
@@ -169,6 +173,24 @@ class C17(Check):
                 self._last_plain = {}
             self._last_plain[id(case)] = res
             return res
+        if k == 'twice':
+            xml = nx.to_xml(X.to_lxml(case['tree']))
+            first = nx.to_ele(xml, huge_tree=case['huge'])
+            want = X.canon(X.from_lxml(first))
+            if case['how'] == 'replace_ns':
+                nx.replace_namespace(first, etree.QName(first).namespace, 'urn:changed')
+            elif case['how'] == 'move_child':
+                other = etree.Element('elsewhere')
+                for c in list(first)[:1]:
+                    other.append(c)
+            elif case['how'] == 'set_attr':
+                first.set('changed', 'yes')
+                first.text = 'changed'
+            else:
+                first.clear()
+            second = nx.to_ele(xml, huge_tree=case['huge'])
+            return {'same_object': second is first, 'second': X.canon(X.from_lxml(second)), 'want': want,
+                    'indep': X.canon(X.drop_comments(X.from_lxml(ET.fromstring(xml.encode('utf-8')))))}
         if k == 'raw':
             raw = RAW_DOCS[case['i']]
             t1 = nx.to_ele(raw)
@@ -321,6 +343,11 @@ class C17(Check):
                 return ('C17:declaration-count', 'serialised form has %d XML declarations' % io['ndecl'])
             if not io['root_ok']:
                 return ('C17:parse-root-disagrees', 'parse_root gives %s, the full parse %s (%s)' % (io['root_got'], io['root_full'], tag))
+            return None
+        if k == 'twice':
+            if io['same_object'] or io['second'] != io['want'] or X.canon(X.drop_comments(io['second'])) != io['indep']:
+                return ('C17:parse-depends-on-earlier-parse', 'the same text parsed a second time (huge_tree=%s) after the first result had been changed in place (%s) '
+                        'does not yield the tree of the text%s' % (case['huge'], case['how'], ' (the very same object is handed out again)' if io['same_object'] else ''))
             return None
         if k == 'plain':
             if 'unbuildable' in io:
